@@ -10,4 +10,5 @@ def run(tier, seed):
     c.bounds = {'setups': '12 list + 5 object alias / fresh-copy shapes over 3 variables', 'history_length': '1-2 mutations (quick) / 3 (thorough), 8-9 mutation kinds per step', 'values': 'symbolic i64'}
     c.outside = ['longer histories', 'heap shapes beyond the enumerated set-ups']
     c.run_family('heap', ts, ('exit', 'stdout', 'stderr-empty', 'panic', 'hang'), heap.role)
+    c.run_random(('exit', 'stdout', 'stderr-empty', 'panic', 'hang'))
     return c.finish()
